@@ -602,6 +602,12 @@ func (fc *FnCtx) evalCallWith(st *State, call *ast.CallExpr, preRecv *Val, preAr
 		return v
 	}
 	ct := fc.eng.contractFor(f, fc.pkg)
+	if rp := fc.root().pkg; rp != nil && rp.cf != nil {
+		scoped := funcKey(f.Origin(), nil) + "@" + strings.TrimPrefix(fc.root().key, rp.Types.Name()+".")
+		if sc, ok := rp.cf.Contracts[scoped]; ok {
+			ct = sc
+		}
+	}
 	if ct != nil {
 		return fc.applyContract(st, call, f, ct, recv, args)
 	}
@@ -1004,6 +1010,24 @@ func (fc *FnCtx) atomicCall(st *State, call *ast.CallExpr, f *types.Func) ([]Val
 
 func (fc *FnCtx) evalFuncValueCall(st *State, call *ast.CallExpr, preArgs []Val) []Val {
 	fv := fc.eval(st, call.Fun)
+	if r := fc.root(); r == fc && r.ct != nil && len(r.ct.CallPre[exprText(call.Fun)]) > 0 {
+		if sig, ok := fv.Ty.Underlying().(*types.Signature); ok {
+			args := preArgs
+			if args == nil {
+				args = fc.evalArgs(st, call, sig)
+				preArgs = args
+			}
+			scope := map[string]Val{"$fn": fv}
+			for i := range args {
+				scope[fmt.Sprintf("$%d", i)] = args[i]
+			}
+			for i, cl := range r.ct.CallPre[exprText(call.Fun)] {
+				env := &SpecEnv{fc: fc, st: st, old: r.entry, scope: scope, oldScope: fc.paramsEntry, pkg: fc.ctPkg(), useVars: true}
+				v := fc.safeSpec(env, cl.E, cl.Text)
+				fc.assertNamed(st, "emit", exprText(call.Fun)+"."+clauseName(cl, i), v.T, "whenever "+exprText(call.Fun)+" is called: "+cl.Text, call.Pos())
+			}
+		}
+	}
 	if cl, ok := st.closures[fv.T]; ok {
 		return fc.inlineClosure(st, call, cl)
 	}
@@ -1310,7 +1334,7 @@ func (fc *FnCtx) applyContractSig(st *State, call *ast.CallExpr, fname string, s
 		return out
 	}
 	pre := st.clone()
-	fv := strings.HasPrefix(ct.Key, "$") // contracts of function values may mention the caller's variables
+	fv := strings.HasPrefix(ct.Key, "$") || strings.Contains(ct.Key, "@") // function-value and caller-scoped contracts may mention the caller's variables
 	env := &SpecEnv{fc: fc, st: st, old: pre, scope: scope, oldScope: scope, pkg: cpkg, useVars: fv}
 	for i, rq := range ct.Requires {
 		v := fc.safeSpec(env, rq.E, rq.Text)
